@@ -94,10 +94,11 @@ def main():
             fails_patched = 'test result: FAILED' in out2
             meta['ran'].append({'step': 'patch + demo', 'cmd': democmd, 'failed_as_expected': fails_patched, 'tail': out2[-600:]})
             sh('git apply -R %s' % demo, cwd=WT)
-            rc3, out3 = sh('cargo nextest run --workspace --no-fail-fast --tool-config-file pb:/w/lib/nextest.toml --profile pb --test-threads 8 --offline 2>&1 | tail -12', cwd=WT, timeout=7200)
+            rc3, out3 = sh('cargo nextest run --workspace --no-fail-fast --tool-config-file pb:/w/lib/nextest.toml --profile pb --test-threads 8 --offline 2>&1 | tail -40', cwd=WT, timeout=7200)
             m = re.search(r'(\d+) tests run: (\d+) passed(?: \([^)]*\))?, (\d+) failed', out3)
             suite_ok = bool(m) and int(m.group(2)) == 1807 and int(m.group(3)) == 3
-            meta['ran'].append({'step': 'patch only: whole existing suite', 'cmd': 'cargo nextest run --workspace ... (baseline command)', 'summary': m.group(0) if m else out3[-900:], 'same_as_baseline': suite_ok})
+            meta['ran'].append({'step': 'patch only: whole existing suite', 'cmd': 'cargo nextest run --workspace ... (baseline command)', 'summary': m.group(0) if m else out3[-900:], 'same_as_baseline': suite_ok,
+                                'failing': sorted(set(re.findall(r'FAIL \[[^\]]*\] \(\S+\) (\S+ \S+)', out3)))})
             meta['confirmed'] = bool(ok_clean and fails_patched and suite_ok)
         finally:
             sh('git -C %s worktree remove --force %s' % (REPO, WT))
